@@ -522,6 +522,118 @@ theorem C11_hc_monotone (s : ScoreTab) (o : HCOpts) (heps : 0 ≤ o.eps) : ∀ (
           _ = totalScore s (applyOp st.g op) := hexact.symm
           _ ≤ _ := ih
 
+/-! ### the in-degree bound -/
+
+/-- what being a candidate means for the in-degree limit -/
+def IndegOk (o : HCOpts) (g : DG) : HOp → Prop
+  | .add _ y => o.indegOk ((g.parents y).length + 1) = true
+  | .rem _ _ => True
+  | .flip x _ => o.indegOk ((g.parents x).length + 1) = true
+
+theorem indegOk_of_mem (s : ScoreTab) (o : HCOpts) (tabu : List HOp) (g : DG) (p : HOp × Rat)
+    (h : p ∈ legalOps s o tabu g) : IndegOk o g p.1 := by
+  unfold legalOps at h
+  simp only at h
+  rcases List.mem_append.mp h with h | h
+  · rcases List.mem_append.mp h with h | h
+    · obtain ⟨⟨x, y⟩, _, hf⟩ := List.mem_filterMap.mp h
+      simp only at hf
+      split at hf
+      · cases hf
+      · split at hf
+        · cases hf
+        · split at hf
+          · cases hf
+          · split at hf
+            · next hc =>
+              simp only [Option.some.injEq] at hf
+              rw [← hf]
+              exact hc
+            · cases hf
+    · obtain ⟨⟨x, y⟩, _, hf⟩ := List.mem_filterMap.mp h
+      simp only at hf
+      split at hf
+      · cases hf
+      · simp only [Option.some.injEq] at hf
+        rw [← hf]
+        trivial
+  · obtain ⟨⟨x, y⟩, _, hf⟩ := List.mem_filterMap.mp h
+    simp only at hf
+    split at hf
+    · cases hf
+    · split at hf
+      · cases hf
+      · split at hf
+        · next hc =>
+          simp only [Option.some.injEq] at hf
+          rw [← hf]
+          exact hc
+        · cases hf
+
+theorem indeg_applyOp (o : HCOpts) (m : Nat) (ho : o.maxIndeg = some m) (g : DG) (op : HOp)
+    (hall : ∀ v, (g.parents v).length ≤ m) (hop : IndegOk o g op) :
+    ∀ v, ((applyOp g op).parents v).length ≤ m := by
+  have hdec : ∀ n, o.indegOk n = true → n ≤ m := by
+    intro n hn
+    unfold HCOpts.indegOk at hn
+    rw [ho] at hn
+    simpa using hn
+  intro v
+  cases op with
+  | add x y =>
+    show ((addEdge g (x, y)).parents v).length ≤ m
+    rw [parents_addEdge]
+    by_cases e : y = v
+    · subst e
+      have := hdec _ hop
+      simpa using this
+    · simpa [e] using hall v
+  | rem x y =>
+    show ((removeEdge g (x, y)).parents v).length ≤ m
+    rw [parents_removeEdge]
+    split
+    · exact le_trans (List.length_filter_le _ _) (hall v)
+    · exact hall v
+  | flip x y =>
+    show ((addEdge (removeEdge g (x, y)) (y, x)).parents v).length ≤ m
+    rw [parents_addEdge, parents_removeEdge]
+    have hshrink : (if y = v then (g.parents v).filter (· != x) else g.parents v).length ≤ (g.parents v).length := by
+      split
+      · exact List.length_filter_le _ _
+      · exact Nat.le_refl _
+    by_cases e : x = v
+    · subst e
+      have := hdec _ hop
+      simp only [if_true, List.length_append, List.length_singleton]
+      omega
+    · simp only [e, if_false, List.append_nil]
+      exact le_trans hshrink (hall v)
+
+/-- **the in-degree limit is honoured**: with `max_indegree = m`, if no node of the start graph has more than `m`
+    parents then no node of any graph the search visits — in particular of the result — has more than `m` parents,
+    for every score table, tabu length, epsilon and iteration bound -/
+theorem C11_hc_indegree (s : ScoreTab) (o : HCOpts) (m : Nat) (ho : o.maxIndeg = some m) : ∀ (fuel : Nat) (st : HCState),
+    (∀ v, (st.g.parents v).length ≤ m) → ∀ v, ((hcLoop s o fuel st).g.parents v).length ≤ m
+  | 0, _, h => h
+  | fuel+1, st, h => by
+    simp only [hcLoop]
+    cases hb : bestOp (legalOps s o st.tabu st.g) with
+    | none => exact h
+    | some b =>
+      simp only
+      split
+      · exact h
+      · have hmem := (bestOp_spec _ b hb).1
+        exact C11_hc_indegree s o m ho fuel _
+          (indeg_applyOp o m ho st.g b.1 h (indegOk_of_mem s o st.tabu st.g b hmem))
+
+/-- non-vacuity: an in-degree limit of 1 and a start graph with one edge meet the hypotheses -/
+example : ∀ v, ((DG.mk [0, 1, 2] [(0, 1)]).parents v).length ≤ 1 := by
+  intro v
+  unfold DG.parents
+  simp only [List.filter_cons, List.filter_nil]
+  split <;> simp
+
 /-- non-vacuity: the empty start graph meets the hypotheses of `C11_hc_acyclic` -/
 example : (DG.mk [0, 1, 2] []).WFG ∧ Acyclic (DG.mk [0, 1, 2] []).edges :=
   ⟨fun e he => (by cases he), acyclic_nil⟩
